@@ -32,7 +32,7 @@ def gen_string(cls, rng, n):
     if cls == "jsonlike":
         return '{"k":"%s","n":[1,2,{"x":null}]}' % tok
     if cls == "control":
-        return tok + "\x01\x02\t\n\r\x1f\x7f\x0b end"
+        return tok + rng.choice(["\x01\x02\t\n\r\x1f\x7f\x0b end", " \x1b[31mALERT\x1b[0m level \x1b]0;title\x07 end", "\x1b[2J\x1b[H\x9b1m"])
     if cls == "quotes":
         return 'He said "%s" \\ back/slash \' `tick` <&>' % tok
     if cls == "spaces":
